@@ -202,6 +202,7 @@ OPS = {
     "hazmat.clip_range": lambda a, b: list(hz_clip.clip_range(a, b)),
     "hazmat.all_intersections": lambda a, b: list(hz_geo.all_intersections(a, b)),
     "shim.all_intersections": lambda a, b: list(_geometric_intersection.all_intersections(a, b)),
+    "hazmat.add_intersection": lambda s, t, ints: _add_int(s, t, ints),
     "hazmat.self_intersections": lambda n: hz_geo.self_intersections(n),
     "shim.newton_refine_intersect": lambda s, n1, t, n2: list(_intersection_helpers.newton_refine(s, n1, t, n2)),
     "hazmat.newton_refine_intersect": lambda s, n1, t, n2: list(hz_ih.newton_refine(s, n1, t, n2)),
@@ -219,6 +220,12 @@ OPS = {
     "hazmat.alg_bernstein_companion": lambda c: list(hz_alg.bernstein_companion(c)),
     "hazmat.alg_normalize_polynomial": lambda c: hz_alg.normalize_polynomial(c),
 }
+
+
+def _add_int(s, t, ints):
+    lst = [(float(a), float(b)) for a, b in ints]
+    hz_geo.add_intersection(s, t, lst)
+    return [[a, b] for a, b in lst]
 
 
 def enc_enum(e):
